@@ -102,6 +102,8 @@ CHECKS = {
         "jobs": [
             {"run": "^TestC05Burst$", "n": {"quick": 6000, "thorough": 40000}},
             {"run": "^TestC05Suppression$", "n": {"quick": 6000, "thorough": 40000}},
+            # dozens of keys failing together on frontends whose BackendConfig carries eviction settings
+            {"run": "^TestC05ManyFailures$", "n": {"quick": 1500, "thorough": 20000}},
             # long histories (tens of thousands of lock releases) while builds are in flight
             {"run": "^TestC01ManyKeys$", "name": "C01ManyKeys-for-C05", "n": {"quick": 300, "thorough": 3000}},
             {"run": "^TestC01Sweep$", "name": "C01Sweep-for-C05", "n": {"quick": 1, "thorough": 1}, "tiers": ("thorough",),
